@@ -25,7 +25,7 @@ func zzH10_addsub() {
 
 //verif:unwind 40
 //verif:config generic posix64 posix64-nommap
-//verif:configq generic posix64
+//verif:configq generic
 func zzH10_cmpsign() {
 	B := zzParam("bits", 40, 70)
 	x, xv := zzSymInt("x", B)
